@@ -66,6 +66,7 @@ REQUIRED = [
     "cancel_in:send_lock_wait",
     "cancellations_landed_in_progress",
     "second_close_checked",
+    "cancel_delivered_during_close",
 ]
 EXHAUSTIVE = {"quick": True, "thorough": True}
 WATCHDOG = {"quick": 1200, "thorough": 7200}
@@ -575,6 +576,15 @@ def run_one(path: str, variant: str, spec: tuple | None) -> dict:
         res["sc"] = sc
         scope = backend.open_cancel_scope()
 
+        async def after_close():
+            # the close operation returned normally. If a cancellation request reached this task while it was inside it, the
+            # request is still owed: it is delivered at one of the next checkpoints (shielded sections delay it, nothing may drop it)
+            res["closer_returned"] = True
+            if res.get("fired_in_progress"):
+                for _ in range(3):
+                    await asyncio.sleep(0)
+                res["survived_checkpoints"] = True
+
         async def closing():
             res["started"] = True
             res["it_start"] = loop.iteration
@@ -582,10 +592,12 @@ def run_one(path: str, variant: str, spec: tuple | None) -> dict:
                 if spec is not None and spec[0] == "scope":
                     with scope:
                         await sc.closer()
+                        await after_close()
                     if scope.cancelled_caught():
                         return "cancelled-by-scope"
                 else:
                     await sc.closer()
+                    await after_close()
                 return "ok"
             finally:
                 res["it_end"] = loop.iteration
@@ -646,6 +658,10 @@ def run_one(path: str, variant: str, spec: tuple | None) -> dict:
                 p = await sc.real_check()
                 if p:
                     problems.append(p)
+        if res.get("survived_checkpoints") and not res.get("second_fired_in_progress"):
+            problems.append(f"a cancellation request delivered while the close operation was suspended was swallowed: the operation returned normally and three further checkpoints passed without CancelledError (task.cancelling()={task.cancelling()})")
+        if res.get("fired_in_progress"):
+            res["cancel_during_close_observed"] = True
         # ---- oracle part 2: second close is prompt
         if res["started"] and not problems and not (sc.expect_closed_only_on_failure and not failed_or_cancelled):
             it0, tt0 = loop.iteration, loop.time()
@@ -737,12 +753,18 @@ def run_shard(params: dict, ctx) -> None:
 def _judge(ctx, path, variant, spec, r) -> None:
     if "second" in r or any("second close" in p for p in r.get("problems", [])):
         ctx.count("second_close_checked")
+    if r.get("cancel_during_close_observed"):
+        ctx.count("cancel_delivered_during_close")
+        if r.get("closer_returned"):
+            ctx.count("close_returned_normally_after_cancel")
     for p in r.get("problems", []):
         phase = r.get("phase", "-")
         if "deadlock" in p:
             key = f"deadlock:{path}"
         elif "second close" in p:
             key = f"second-close-not-prompt:{path}"
+        elif "was swallowed" in p:
+            key = f"cancel-swallowed:{path}:cancel-in-{phase}"
         elif "not closed" in p or "is_closing" in p or "still open" in p or "not closing" in p:
             key = f"left-open:{path}:cancel-in-{phase}" if spec is not None else f"left-open:{path}:no-cancel"
             # the two recorded findings have one precise shape each: anything else in the same place is a new violation
